@@ -48,10 +48,10 @@ class Harness:
             if p.find_method(self.loop, m) is None:
                 raise AnchorError(f"CoherentFeedForwardLoop.{m} not found")
 
-    def build(self, o, gate, breaker, cache, state="CLOSED", verdicts=("EXECUTE", "PERMIT"), prompt=None, silent=True):
+    def build(self, o, gate, breaker, cache, state="CLOSED", verdicts=("EXECUTE", "PERMIT"), prompt=None, silent=True, interp_cls=None):
         """returns (interp, loop object).  verdicts: (executor, assessor) — each a verdict string or EXC"""
         p = self.p
-        it = Interp(p, o)
+        it = (interp_cls or Interp)(p, o)
         calls = []
 
         def bio_init(interp, args, kwargs):
